@@ -23,6 +23,7 @@ type c02State struct {
 	n    int
 	idx  int64
 	env  gen.Env
+	rx   *rxBuf
 }
 
 func (st *c02State) session() *packet.Session {
@@ -59,9 +60,17 @@ func (st *c02State) compareParse(f gen.Frame) {
 	}
 	c.Begin(st.idx, "Parse", f.B)
 	c.Eval()
+	// every second frame is parsed out of the read loop's receive buffer (spare capacity = what earlier, longer frames left
+	// there), the others out of a slice of exactly their length
 	in := append(make([]byte, 0, len(f.B)), f.B...)
+	if st.idx%2 == 0 && len(f.B) <= packet.EthMaxSize {
+		if st.rx == nil {
+			st.rx = newRx()
+		}
+		in = st.rx.load(f.B)
+	}
 	cs := func() any {
-		return map[string]any{"index": st.idx, "input_hex": wk.Hex(f.B), "kind": f.Kind, "mutation": f.Mut}
+		return map[string]any{"index": st.idx, "input_hex": wk.Hex(f.B), "kind": f.Kind, "mutation": f.Mut, "parsed_from_receive_buffer": cap(in) > len(in)}
 	}
 	ref := refdec.Decode(in)
 	var frame packet.Frame
